@@ -210,18 +210,18 @@ func compareList(s stackage.Stack, m *listModel) []string {
 	for i := -L - 2; i <= L+2; i++ {
 		gv, gok := s.Index(i)
 		wv, wok := m.index(i)
-		if gv != wv || gok != wok {
+		if diffAny(gv, wv) || gok != wok {
 			bad = append(bad, fmt.Sprintf("Index(%d)=(%s,%v) want (%s,%v) (model %s neg=%v fwd=%v)", i, show(gv), gok, show(wv), wok, showList(m.items), m.neg, m.fwd))
 		}
 	}
 	gv, gok := s.Front()
 	wv, wok := m.front()
-	if gv != wv || gok != wok {
+	if diffAny(gv, wv) || gok != wok {
 		bad = append(bad, fmt.Sprintf("Front()=(%s,%v) want (%s,%v) (model %s fifo=%v)", show(gv), gok, show(wv), wok, showList(m.items), m.fifo))
 	}
 	gv, gok = s.Back()
 	wv, wok = m.back()
-	if gv != wv || gok != wok {
+	if diffAny(gv, wv) || gok != wok {
 		bad = append(bad, fmt.Sprintf("Back()=(%s,%v) want (%s,%v) (model %s fifo=%v)", show(gv), gok, show(wv), wok, showList(m.items), m.fifo))
 	}
 	if got := s.IsFIFO(); got != m.fifo {
